@@ -48,6 +48,12 @@ CHECKS["C12"] = dict(
   text="All scripts with <= 2 faults in {lost PCD block, lost PICC block, corrupted PICC block} over the first 12 (quick) / 26 (thorough) block exchanges of fixed configurations are enumerated, plus generated configurations/APDU lists/scripts. Each transceive() must return the response of exactly its own single execution or raise Type4TagCommandError with at most one execution; fault counts within the library's own retry policy must be absorbed; no block may exceed FSC.",
   note=TRUST + "PICC model vlib/isodep_card.py (rules D,E,2,9-13) is trusted. Known findings: C12-no-resync-after-error (class after-error) and C12-wtx-fault-not-recovered (class fault-hits-wtx) are excluded by signature.")
 
+CHECKS["C16"] = dict(
+  category="fault_enumeration",
+  technique="fault-position enumeration + property-based testing: every exchange position of each tag operation x error kind x burst x {command lost, response lost} on simulated tags; metamorphic comparison with the fault-free run",
+  text="For fixed fixtures of every tag class (generic T1T-T4T, Topaz/-512, NTAG213, FeliCa Lite/Lite-S) and each operation (ndef read/write, presence, format, protect, authenticate, dump, raw commands) every fault position (thorough; both ends + samples in quick) is combined with kind, burst 1-4/persistent and phase. Only TagCommandError may escape; bursts below the retry budget must leave result, memory and answered commands identical to the fault-free run; persistent errors must carry the matching reason code; effort stays bounded.",
+  note=TRUST + "Known findings C16-t4t-presence-check-no-retry and C16-t4t-protocol-error-not-retried are excluded by class. The passive-ack packet of SECTOR SELECT and non-idempotent FeliCa Lite protect/MAC writes are exempt from the metamorphic oracle (stated in evidence).")
+
 PENDING_REASON = "not claimed yet: its generated-input check (DESIGN.md section 3) is still under construction in this session; nothing is asserted about it"
 
 def main():
